@@ -184,7 +184,7 @@ theorem quote_groups_are_strings (defs : List QuoteDef) (text : Str) (start : Na
 theorem block_definition_tags_come_together (value : Str) (mt : Match)
     (h : Gen.P.delimitedblocks_setDefinition_0.search value = some mt) (o : Str)
     (h1 : mt.res.group mt.inp 1 = some o) : ∃ c, mt.res.group mt.inp 2 = some c := by
-  obtain ⟨hn, hM⟩ := Pat.search_of (Nat.zero_le _) h
+  obtain ⟨hn, hM, _⟩ := Pat.search_of (Nat.zero_le _) h
   have hset1 : Rx.IsSet mt.res.caps 1 := by
     unfold Rx.MatchRes.group Rx.MatchRes.span at h1
     simp only [Nat.succ_ne_zero, if_false] at h1
